@@ -28,7 +28,10 @@ IMPORTS = ("From TxV Require Import Core.Base Core.Show Model.PegSyntax Model.Pe
 FUEL = 600
 # the regular expressions the checker assumes never to match the empty string (mirror of
 # Model/PegEquiv.v textx_nonempty_patterns; compared with the Coq value on every run and checked on every text)
-NONEMPTY_PATTERNS = [r"\w+"]
+NONEMPTY_PATTERNS = [r"\w+", r"'((\\')|[^'])*'", r'''"((\\")|[^"])*"''']
+# regex triples (p1, p2, p3) of the acceptance-only theorem's oracle hypothesis: p3 matches at a position with the
+# length p1 matches there, else with the length p2 matches there (mirror of Model/PegEquiv.v textx_alt_patterns)
+ALT_PATTERNS = [[r"'((\\')|[^'])*'", r'''"((\\")|[^"])*"''', r'''("(\\"|[^"])*")|(\'(\\\'|[^\'])*\')''']]
 # the oracle as a per-oracle-id association list (same function as Peg.orc_of on the flat table, faster to evaluate)
 DEFS = """Definition orc2 (t : list (list (nat * nat))) (o p : nat) : option nat :=
   (fix go (l : list (nat * nat)) : option nat :=
@@ -39,6 +42,15 @@ Definition c24_diffs (only_unaccepted : bool) : string :=
                 (seeds_of lang_labels tx_labels textx_seeds) lang_grammar tx_grammar) in
   let d := if only_unaccepted then filter (fun p => negb (existsb (lp_eqb p) textx_accepted_diffs)) d else d in
   sjoin ";" (map (fun p => String.append (show_str (fst p)) (String.append "~" (show_str (snd p)))) d).
+Definition c24_diffs_acc : string :=
+  let d := diff_labels lang_labels tx_labels
+             (peg_equiv_diffs_acc (ne_of lang_oracles textx_nonempty_patterns) (alts_of lang_oracles textx_alt_patterns)
+                (seeds_of lang_labels tx_labels textx_seeds) lang_grammar tx_grammar) in
+  let d := filter (fun p => negb (existsb (lp_eqb p) textx_accepted_diffs_acc)) d in
+  sjoin ";" (map (fun p => String.append (show_str (fst p)) (String.append "~" (show_str (snd p)))) d).
+Definition c24_alts : string :=
+  sjoin ";" (map (fun t => match t with (a, b, c) => String.append (show_str a) (String.append " " (String.append (show_str b) (String.append " " (show_str c)))) end)
+                 textx_alt_patterns).
 Definition c24_ne : string := sjoin ";" (map show_str textx_nonempty_patterns).
 Definition c24_case (t : list (list (nat * nat))) (inp : list N) : string :=
   String.append (show_outcome lang_grammar (run lang_grammar lang_config (orc2 t) false %d inp))
@@ -353,7 +365,7 @@ def run_texts(texts, tables=False):
     chunks = [list(range(i, len(texts), core.NPROC)) for i in range(core.NPROC)]
     chunks = [c for c in chunks if c]
     outs = core.run_impl_parallel("c24", [{"mode": "cases", "texts": [texts[i] for i in ch], "tables": tables,
-                                           "nonempty": NONEMPTY_PATTERNS} for ch in chunks])
+                                           "nonempty": NONEMPTY_PATTERNS, "alts": ALT_PATTERNS} for ch in chunks])
     res = [None] * len(texts)
     for ch, o in zip(chunks, outs):
         for i, x in zip(ch, o):
@@ -442,10 +454,11 @@ def run(chk):
             chk.stat("%s compiler=%s textx.tx=%s" % (c["kind"].split(":")[0], "accept" if acc_l else "reject", "accept" if acc_t else "reject"))
             # glue: the API-level classification must be the Arpeggio-level one
             if (o["lang"] == "P") != acc_l or (o["tx"] == "P") != acc_t or o["lang"].startswith("X") or o["tx"].startswith("X") \
-                    or o["api_tx"].startswith(("crash", "semantic", "syntax-visitor")) or o.get("merge_mismatch") or o.get("empty_match"):
+                    or o["api_tx"].startswith(("crash", "semantic", "syntax-visitor")) or o.get("merge_mismatch") or o.get("empty_match") or o.get("alts_mismatch"):
                 disagreements.append({"case": c["text"], "impl": o, "model": "API level and parser level classify the text differently, "
                                       "or grammar_model_from_str failed otherwise than by a syntax error, or merged regex texts differ, "
-                                      "or a regex assumed non-empty matched the empty string"})
+                                      "or a regex assumed non-empty matched the empty string, or a regex triple of the oracle hypothesis "
+                                      "orc_alts does not hold at some position"})
             if acc_l != acc_t:
                 suspects.append(c)
             if chk.cov["evaluations"] % 97 == 5:
@@ -464,11 +477,17 @@ def run(chk):
         tbl = "[" + ";".join("[" + ";".join("(%d,%d)" % x for x in per.get(i, [])) + "]" for i in range(nor)) + "]"
         s = pegdump.coq_str(c["text"])
         exprs.append("c24_case %s %s" % (tbl, s))
-    exprs = ["c24_diffs false", "c24_diffs true", "c24_ne"] + exprs
+    exprs = ["c24_diffs false", "c24_diffs true", "c24_ne", "c24_diffs_acc", "c24_alts"] + exprs
     t0 = time.time()
     vals, errs = core.coq_eval("C24", IMPORTS, exprs, shard=max(1, -(-len(exprs) // core.NPROC)), defs=DEFS)
-    all_diffs, unaccepted, ne_coq = vals[0], vals[1], vals[2]
-    vals = vals[3:]
+    all_diffs, unaccepted, ne_coq, unaccepted_acc, alts_coq = vals[0], vals[1], vals[2], vals[3], vals[4]
+    vals = vals[5:]
+    if alts_coq != ";".join(" ".join(core.canon_text(x) for x in t) for t in ALT_PATTERNS):
+        disagreements.append({"case": "the regex triples of the check differ from Model/PegEquiv.v textx_alt_patterns",
+                              "impl": ALT_PATTERNS, "model": alts_coq})
+    if unaccepted_acc is None or unaccepted_acc != "":
+        disagreements.append({"case": "acceptance-only check: the two live parser models differ outside the accepted pairs",
+                              "model": unaccepted_acc})
     if ne_coq != ";".join(core.canon_text(x) for x in NONEMPTY_PATTERNS):
         disagreements.append({"case": "the non-empty regex list of the check differs from Model/PegEquiv.v textx_nonempty_patterns",
                               "impl": NONEMPTY_PATTERNS, "model": ne_coq})
